@@ -51,7 +51,7 @@ impl<T> Banded<T> {
     }
 }
 
-impl<T: Clone + Copy + Number + PartialOrd + Neg<Output = T>> Banded<T> {
+impl<T: Clone + Copy + Number + PartialOrd + Signed> Banded<T> {
     /// Create a new banded matrix of specified size and fill it with a constant value
     #[inline]
     pub fn new( n: usize, m1: usize, m2: usize, value: T ) -> Self {
@@ -106,14 +106,14 @@ impl<T: Clone + Copy + Number + PartialOrd + Neg<Output = T>> Banded<T> {
         l = self.m1;
         for k in 0..self.n {
             //let mut dum = au[ k ][ 0 ];
-            let mut dum = au[(k, 0)];
+            let mut dum = au[(k, 0)].abs();
             let mut i = k;
             if l < self.n { l += 1; }
             for j in k + 1..l {
                 //if au[ j ][ 0 ] > dum {
-                if au[(j, 0)] > dum {
+                if au[(j, 0)].abs() > dum {
                     //dum = au[ j ][ 0 ];
-                    dum = au[(j, 0)];
+                    dum = au[(j, 0)].abs();
                     i = j;
                 }
             }
